@@ -75,7 +75,7 @@ func (w *World) collect() {
 	for k, v := range w.probes {
 		res.Probes[k] += v
 	}
-	res.Checks = w.checks
+	res.Checks = w.checks.Load()
 	for k := range w.states {
 		res.States = append(res.States, k)
 	}
